@@ -22,7 +22,6 @@ THEOREMS = [
     "Cog.Sem.C08.leaf_agree",
 ]
 FILES = HARNESS_BASE + ["lab_*.go", "src_*.go", "c08_*.go"]
-PROPOSED = os.path.join(WORK, "proposed_findings_C08.json")
 CORPUS = os.path.join(VERIF, "corpus", "C08.tsv")
 CONSTRAINT_KINDS = ("min-1", "max+1", "minLength-1", "maxLength+1")
 
@@ -153,15 +152,7 @@ class Runner:
         self.stats = collections.Counter()
         self.kinds = collections.Counter()
         self.shapes = collections.Counter()
-        self.known = list(c.known)
-        if os.path.exists(PROPOSED):
-            try:
-                have = {f["id"] for f in self.known}
-                for f in json.load(open(PROPOSED)).get("findings", []):
-                    if f.get("property") == "C08" and f["id"] not in have:
-                        self.known.append(f)
-            except Exception as e:
-                c.oblige("proposed findings file is readable", False, str(e))
+        self.known = list(c.known)   # /verif/known_findings.json, property C08 (`fixed` entries suppress nothing)
         c.known = self.known
         self.pending = []      # unexplained oracle failures (to shrink)
         self.disagree = []     # unexplained model/implementation disagreements
